@@ -22,18 +22,32 @@ use std::sync::atomic::{AtomicU64, AtomicUsize, Ordering};
 
 /// Open an image with the real code and report what it shows
 fn probe_image(image: Vec<u8>, cfg: &Config, cx: &redb_verif_harness::codec::Ctx, record: bool) -> (J, Option<(Vec<u8>, Vec<Op>)>) {
+    let (j, rec, _) = probe_image_r(image, cfg, cx, record, false);
+    (j, rec)
+}
+
+/// `recover`: also report what the open decided (RecoverTrace.tla): the header before, the header after
+fn probe_image_r(image: Vec<u8>, cfg: &Config, cx: &redb_verif_harness::codec::Ctx, record: bool, recover: bool) -> (J, Option<(Vec<u8>, Vec<Op>)>, Option<J>) {
     let store = Store::from_bytes(image.clone());
     if record {
         store.start_recording();
     }
+    let pre = if recover { redb_verif_harness::recover::pre_of(&image) } else { None };
+    let decided: Mutex<Option<J>> = Mutex::new(None);
     let res = catch_unwind(AssertUnwindSafe(|| {
         let mut db = match builder(cfg).create_with_backend(store.backend()) {
             Ok(db) => db,
             Err(e) => {
                 let e: redb::Error = e.into();
+                if let Some((pre, h)) = &pre {
+                    *decided.lock().unwrap() = Some(json!({"e": "recover", "pre": pre, "post": redb_verif_harness::recover::post_of(Err(redb_verif_harness::exec::err_name(&e).to_string()), h)}));
+                }
                 return json!({"obs": {"error": redb_verif_harness::exec::err_name(&e), "msg": e.to_string()}});
             }
         };
+        if let Some((pre, h)) = &pre {
+            *decided.lock().unwrap() = Some(json!({"e": "recover", "pre": pre, "post": redb_verif_harness::recover::post_of(Ok(&store.bytes()), h)}));
+        }
         let obs = match observe(&db, cx) {
             Ok(o) => o,
             Err(e) => return json!({"obs": {"error": redb_verif_harness::exec::err_name(&e), "msg": e.to_string()}}),
@@ -107,7 +121,14 @@ fn probe_image(image: Vec<u8>, cfg: &Config, cx: &redb_verif_harness::codec::Ctx
         }
     };
     let rec = if record { Some((image, store.take_log())) } else { None };
-    (j, rec)
+    let mut decided = decided.into_inner().unwrap_or_else(|e| e.into_inner());
+    if decided.is_none()
+        && let Some((pre, _)) = &pre
+    {
+        // the open itself panicked
+        decided = Some(json!({"e": "recover", "pre": pre, "post": {"err": "panic"}}));
+    }
+    (j, rec, decided)
 }
 
 /// the release that writes the history (C19: the other one reads the images)
@@ -162,6 +183,10 @@ fn main() {
     let reader3 = args.str("reader", "current") == "3";
     let (exh, rnd) = if tier == "quick" { (7usize, 8usize) } else { (10usize, 48usize) };
     let second_every = args.u64("second-every", if tier == "quick" { 97 } else { 13 });
+    // every n-th image: what the open decided (header before / after), judged by RecoverTrace.tla; 0 = never
+    let recover_every = args.u64("recover-every", 0);
+    let mut recover_out = args.map.get("recover-out").map(|p| TraceWriter::create(p));
+    let mut recover_images = 0u64;
     let mut tw = TraceWriter::create(&out);
     let mut scripts = args.map.get("scripts-out").map(|p| TraceWriter::create(p));
     let mut total_images = 0u64;
@@ -313,6 +338,7 @@ fn main() {
         let second = AtomicU64::new(0);
         let skipped = AtomicU64::new(0);
         let found: Mutex<HashMap<String, (Found, u64)>> = Mutex::new(HashMap::new());
+        let decisions: Mutex<HashMap<String, (J, J, u64)>> = Mutex::new(HashMap::new());
         std::thread::scope(|sc| {
             for _ in 0..threads {
                 sc.spawn(|| {
@@ -343,7 +369,13 @@ fn main() {
                             other["writer"] = json!(if writer3 { "3.0.0" } else { "current" });
                             (other, None)
                         } else {
-                            probe_image(image, &cfg, &cx, do_second)
+                            let want_decision = recover_every > 0 && (w as u64) % recover_every == 0;
+                            let (o, r, decided) = probe_image_r(image, &cfg, &cx, do_second, want_decision);
+                            if let Some(d) = decided {
+                                let mut m = decisions.lock().unwrap();
+                                m.entry(d.to_string()).and_modify(|e| e.2 += 1).or_insert((d, json!({"at": p.c, "case": p.cases[ci].to_json()}), 1));
+                            }
+                            (o, r)
                         };
                         images.fetch_add(1, Ordering::Relaxed);
                         let (ev_idx, after) = owner[p.c];
@@ -391,6 +423,18 @@ fn main() {
         total_skipped += skipped.load(Ordering::Relaxed);
         let found = found.into_inner().unwrap();
         total_distinct += found.len() as u64;
+        if let Some(rw) = recover_out.as_mut() {
+            let mut ds: Vec<(String, (J, J, u64))> = decisions.into_inner().unwrap().into_iter().collect();
+            ds.sort_by(|a, b| a.0.cmp(&b.0));
+            for (_, (mut d, whence, n)) in ds {
+                recover_images += n;
+                d["run"] = json!(run);
+                d["n"] = json!(n);
+                d["at"] = whence["at"].clone();
+                d["case"] = whence["case"].clone();
+                rw.write(&d);
+            }
+        }
         // group the probes by event
         let mut inside: HashMap<usize, Vec<&(Found, u64)>> = HashMap::new();
         let mut after: HashMap<usize, Vec<&(Found, u64)>> = HashMap::new();
@@ -462,12 +506,15 @@ fn main() {
         }
     }
     tw.finish();
+    if let Some(rw) = recover_out {
+        rw.finish();
+    }
     if let Some(sw) = scripts {
         sw.finish();
     }
     println!(
         "{}",
         json!({"runs": runs, "events": total_events, "crash_points": total_points, "images": total_images, "second_level_images": total_second,
-               "distinct_probes": total_distinct, "images_the_writer_cannot_open": total_skipped, "probes_inside_commit": nontrivial, "samples": samples})
+               "distinct_probes": total_distinct, "images_with_open_decision": recover_images, "images_the_writer_cannot_open": total_skipped, "probes_inside_commit": nontrivial, "samples": samples})
     );
 }
